@@ -641,9 +641,9 @@ def expected_(tab, op):
             if op[1] == "div":
                 if kv == 0:
                     raise Exc()
-                c = [_num(lambda p: p * (1.0 / kv))(p) for p in a]
+                c = [_num(lambda p: p / kv)(p) for p in a]             # a single division (fixes 5676890 / 2dd86ce)
             elif op[1] == "rdiv":
-                c = [_num(lambda p: (1.0 / p) * kv)(p) for p in a]
+                c = [_num(lambda p: kv / p)(p) for p in a]
             else:
                 c = shift_col(a, kv if op[1] == "shift" else -kv)
             e["ret"] = ("c", c)
@@ -811,7 +811,7 @@ class P(Prop):
         ("TracklibVerif.Props.C01", "TV.C01.short_list_refused", "createAnalyticalFeature(new name, list shorter than the track) raises IndexError and leaves the track exactly as it was"),
         ("TracklibVerif.Props.C01", "TV.C01.evaluate_no_new_name", "a name that is not listed, not a token of the expression and not a '#' name is not listed after the evaluation either"),
         ("TracklibVerif.Props.C01", "TV.C01.applyVoid_read_back", "when an APPLY-based operator (RECTIFIER SQRT DIODE SIGN EXP COS SIN TAN INVERSER ..., any cell function, which may raise mid-way) returns temp, the output feature reads exactly temp"),
-        ("TracklibVerif.Props.C01", "TV.C01.scalarKind_read_back", "the same for SCALAR_DIVIDER, SCALAR_REV_DIVIDER (two operators in a row), SHIFT_CIRCULAR(_REV) and the twelve plain scalar operators"),
+        ("TracklibVerif.Props.C01", "TV.C01.scalarKind_read_back", "the same for SCALAR_DIVIDER, SCALAR_REV_DIVIDER (single divisions in the create / loop / addListToAF form, fixes 5676890 / 2dd86ce), SHIFT_CIRCULAR(_REV) and the twelve plain scalar operators"),
         ("TracklibVerif.Props.C01", "TV.C01.agg_keeps_table", "the value-returning aggregates SUM AVG MIN MAX ARGMIN ARGMAX leave the whole table as it was, returning or raising"),
         ("TracklibVerif.Props.C01", "TV.C01.cell_read_agrees", "every read path returns the same values: for ANY name (feature called X, E, N, the empty string ..., coordinate, t, idx) getObsAnalyticalFeature(m, i) is the i-th element of getAnalyticalFeature(m) and changes nothing"),
         ("TracklibVerif.Props.C01", "TV.C01.carried_table_aligned", "a track handed a table with distinct names and full columns (copy, extract, slice, +) is aligned and carries exactly that table: all theorems apply to histories starting from it"),
